@@ -1,17 +1,14 @@
 package main
 
 import (
-	"math/big"
-	"bufio"
+	"encoding/json"
 	"flag"
 	"fmt"
 	"go/types"
 	"os"
-	"os/exec"
 	"path/filepath"
 	"sort"
 	"strings"
-	"sync"
 	"time"
 
 	"golang.org/x/tools/go/packages"
@@ -19,110 +16,87 @@ import (
 	"golang.org/x/tools/go/ssa/ssautil"
 )
 
-const mode = packages.NeedName | packages.NeedFiles | packages.NeedCompiledGoFiles | packages.NeedImports | packages.NeedTypes | packages.NeedSyntax | packages.NeedTypesInfo | packages.NeedTypesSizes | packages.NeedDeps | packages.NeedModule
+const loadMode = packages.NeedName | packages.NeedFiles | packages.NeedCompiledGoFiles | packages.NeedImports | packages.NeedTypes | packages.NeedSyntax | packages.NeedTypesInfo | packages.NeedTypesSizes | packages.NeedDeps | packages.NeedModule
+
+// PropCfg is one entry of /verif/props/props.json.
+type PropCfg struct {
+	Title       string   `json:"title"`
+	Packages    []string `json:"packages"`     // package dirs relative to the repo root whose contract files take part
+	TrustedBase []string `json:"trusted_base"` // assumptions specific to this property
+	Residue     []string `json:"residue"`      // what the check does not decide
+	Level       string   `json:"level"`        // evidence level ("proof" unless stated)
+}
 
 type Target struct {
-	Fn    string
-	Pre   string
-	Posts []string
-	Lemma bool
+	D     *Directive
+	Fn    *ssa.Function
+	Short string
+}
+
+var (
+	repoDir  = "/repo"
+	verifDir = "/verif"
+	tier     = "quick"
+	verbose  = false
+)
+
+func usage() {
+	fmt.Fprintln(os.Stderr, "usage: govc check <property-id> [--tier quick|thorough] [--repo DIR] [--verif DIR] [-v]\n       govc replay <path>\n       govc selfcheck")
+	os.Exit(2)
 }
 
 func main() {
-	repo := flag.String("repo", "/repo", "repo root")
-	specs := flag.String("specs", "", "comma list of relpkgdir=specfile")
-	out := flag.String("out", "/tmp/spike/out", "output dir")
-	tmo := flag.Int("timeout", 20, "solver timeout s")
-	flag.BoolVar(&intBV, "intbv", false, "model Go int as BV64")
-	prune := flag.Bool("prune", false, "check feasibility at forks")
-	workers := flag.Int("workers", 14, "parallel exploration workers (with -prune)")
-	flag.Parse()
-	overlay := map[string][]byte{}
-	var pats []string
-	var specFiles []string
-	for _, kv := range strings.Split(*specs, ",") {
-		p := strings.SplitN(kv, "=", 2)
-		b, err := os.ReadFile(p[1])
-		if err != nil {
-			panic(err)
-		}
-		overlay[filepath.Join(*repo, p[0], "zz_spec_verif.go")] = b
-		pats = append(pats, "./"+p[0])
-		specFiles = append(specFiles, p[1])
+	if len(os.Args) < 2 {
+		usage()
 	}
-	pats = append(pats, "encoding/binary", "math/bits")
-	t0 := time.Now()
-	cfg := &packages.Config{Mode: mode, Dir: *repo, BuildFlags: []string{"-tags=verif"}, Overlay: overlay}
-	pkgs, err := packages.Load(cfg, pats...)
+	switch os.Args[1] {
+	case "check":
+		if len(os.Args) < 3 {
+			usage()
+		}
+		id := os.Args[2]
+		fs := flag.NewFlagSet("check", flag.ExitOnError)
+		fs.StringVar(&tier, "tier", envOr("VERIF_TIER", "quick"), "quick|thorough")
+		fs.StringVar(&repoDir, "repo", envOr("VERIF_REPO", "/repo"), "repository root")
+		fs.StringVar(&verifDir, "verif", envOr("VERIF_DIR", "/verif"), "verif root")
+		fs.BoolVar(&verbose, "v", false, "verbose")
+		only := fs.String("only", "", "only targets whose name contains this text (debugging; evidence is not written)")
+		noEv := fs.Bool("no-evidence", false, "do not write the evidence file")
+		fs.Parse(os.Args[3:])
+		os.Exit(runCheck(id, *only, *noEv))
+	case "replay":
+		if len(os.Args) < 3 {
+			usage()
+		}
+		os.Exit(runReplay(os.Args[2]))
+	default:
+		usage()
+	}
+}
+
+func envOr(k, d string) string {
+	if v := os.Getenv(k); v != "" {
+		return v
+	}
+	return d
+}
+
+func die(code int, id, format string, a ...interface{}) int {
+	msg := fmt.Sprintf(format, a...)
+	fmt.Printf("UNDECIDED property=%s reason=%s\n", id, strings.ReplaceAll(msg, "\n", " | "))
+	return code
+}
+
+func loadProps() (map[string]*PropCfg, error) {
+	b, err := os.ReadFile(filepath.Join(verifDir, "props", "props.json"))
 	if err != nil {
-		panic(err)
+		return nil, err
 	}
-	if packages.PrintErrors(pkgs) > 0 {
-		os.Exit(2)
+	m := map[string]*PropCfg{}
+	if err := json.Unmarshal(b, &m); err != nil {
+		return nil, err
 	}
-	prog, spkgs := ssautil.Packages(pkgs, ssa.NaiveForm|ssa.InstantiateGenerics)
-	for _, p := range spkgs {
-		p.Build()
-	}
-	fmt.Printf("loaded+built in %v\n", time.Since(t0))
-	e := &Engine{prune: *prune, workers: *workers, prog: prog, pkgs: spkgs, loops: map[string]map[int]*LoopAnn{}, heapSorts: map[string]string{}}
-	var targets []Target
-	for _, sf := range specFiles {
-		fh, _ := os.Open(sf)
-		sc := bufio.NewScanner(fh)
-		for sc.Scan() {
-			l := strings.TrimSpace(sc.Text())
-			if !strings.HasPrefix(l, "//@ ") {
-				continue
-			}
-			fs := strings.Fields(l[4:])
-			switch fs[0] {
-			case "loop": // loop <fn> <ord> unroll N | inv a,b
-				var ord int
-				fmt.Sscanf(fs[2], "%d", &ord)
-				if e.loops[fs[1]] == nil {
-					e.loops[fs[1]] = map[int]*LoopAnn{}
-				}
-				a := &LoopAnn{}
-				if fs[3] == "unroll" {
-					fmt.Sscanf(fs[4], "%d", &a.Unroll)
-				} else {
-					a.Invs = strings.Split(fs[4], ",")
-				}
-				e.loops[fs[1]][ord] = a
-			case "opaque":
-				if e.opaque == nil {
-					e.opaque = map[string]bool{}
-				}
-				e.opaque[fs[1]] = true
-			case "verify", "lemma":
-				t := Target{Fn: fs[1], Lemma: fs[0] == "lemma"}
-				for _, kv := range fs[2:] {
-					p := strings.SplitN(kv, "=", 2)
-					switch p[0] {
-					case "pre":
-						t.Pre = p[1]
-					case "post":
-						t.Posts = strings.Split(p[1], ",")
-					}
-				}
-				targets = append(targets, t)
-			}
-		}
-		fh.Close()
-	}
-	all := allFuncs(prog, spkgs)
-	for _, t := range targets {
-		fn := all[t.Fn]
-		if fn == nil {
-			fmt.Println("TARGET NOT FOUND:", t.Fn)
-			os.Exit(2)
-		}
-		e.verify(fn, t)
-	}
-	os.RemoveAll(*out)
-	os.MkdirAll(*out, 0755)
-	e.discharge(*out, *tmo)
+	return m, nil
 }
 
 func allFuncs(prog *ssa.Program, spkgs []*ssa.Package) map[string]*ssa.Function {
@@ -158,170 +132,164 @@ func allFuncs(prog *ssa.Program, spkgs []*ssa.Package) map[string]*ssa.Function 
 	return res
 }
 
-func (e *Engine) verify(fn *ssa.Function, t Target) {
-	e.curFn = fn.String()
-	n0 := len(e.obs)
-	p0 := e.paths
-	defer func() {
-		if r := recover(); r != nil {
-			if os.Getenv("SPIKE_TRACE") != "" {
-				panic(r)
-			}
-			fmt.Printf("UNSUPPORTED %s: %v\n", fn, r)
-			e.errs = append(e.errs, fmt.Sprint(r))
-		}
-	}()
-	s := &State{cellv: map[*Cell]Val{}, heap: map[string]Term{}}
-	_ = s
-	e.verify2(fn, t)
-	fmt.Printf("%-70s paths=%d obligations=%d\n", fn.String(), e.paths-p0, len(e.obs)-n0)
-}
-
-func (e *Engine) verify2(fn *ssa.Function, t Target) {
-	s := &State{cellv: map[*Cell]Val{}, heap: map[string]Term{}, subst: map[string]*big.Int{}}
-	s.defs = append(s.defs, "(declare-const alloc!0 (Array Int Bool))")
-	s.alloc = Term{S: "alloc!0", Sort: "(Array Int Bool)", C: nil}
-	var args []Val
-	for _, p := range fn.Params {
-		args = append(args, e.symbolic(s, "p_"+p.Name(), p.Type()))
-	}
-	f := e.newFrame(s, fn, args, nil, nil, true)
-	s.frames = []*Frame{f}
-	for i, p := range fn.Params {
-		f.entry[p.Name()] = e.snapshot(s, args[i])
-	}
-	if t.Pre != "" {
-		pre := e.lookupFunc(fn.Pkg, t.Pre)
-		var pa []Val
-		for _, pp := range pre.Params {
-			pa = append(pa, args[paramIndex(fn, pp.Name())])
-		}
-		v := e.evalPure(s, pre, pa, nil).(Term)
-		e.assume(s, v)
-		e.learnAll(s, v)
-	}
-	// entry heap snapshot for vsOld (shared, append-only while entry versions get materialised)
-	s.entryHeap, s.entryLog = map[string]Term{}, map[string]*HLog{}
-	for k, v := range s.heap {
-		s.entryHeap[k] = v
-		s.entryLog[k] = &HLog{Base: s.hlog[k].Base, W: append([]HWrite(nil), s.hlog[k].W...)}
-	}
-	fins := e.runPar(s, 1)
-	for _, fs := range fins {
-		if t.Lemma {
-			e.oblig(fs, "lemma", fs.ret[0].(Term))
-			continue
-		}
-		for k, pn := range t.Posts {
-			post := e.lookupFunc(fn.Pkg, pn)
-			var pa []Val
-			for _, pp := range post.Params {
-				nm := pp.Name()
-				switch {
-				case strings.HasPrefix(nm, "old_"):
-					pa = append(pa, f.entry[nm[4:]])
-				case strings.HasPrefix(nm, "res"):
-					var i int
-					fmt.Sscanf(nm, "res%d", &i)
-					pa = append(pa, fs.ret[i])
-				default:
-					pa = append(pa, args[paramIndex(fn, nm)])
-				}
-			}
-			e.oblig(fs, fmt.Sprintf("ensures[%d:%s]", k, pn), e.evalPure(fs, post, pa, nil).(Term))
-		}
-	}
-}
-
-func paramIndex(fn *ssa.Function, name string) int {
-	for i, p := range fn.Params {
-		if p.Name() == name {
-			return i
-		}
-	}
-	panic("no parameter " + name + " in " + fn.String())
-}
-
-// snapshot makes a frozen ghost copy of slice contents (for old_x).
-func (e *Engine) snapshot(s *State, v Val) Val {
-	sv, ok := v.(SliceV)
-	if !ok {
-		return v
-	}
-	so, ok2 := sortOf(sv.Elem)
-	if !ok2 {
-		return v
-	}
-	r := e.newRef(s)
-	nm := "M_" + sortTag(so)
-	m := e.heapArr(s, nm, refArrSort(arrSort(so)))
-	inner := e.name(s, sel(m, sv.Ref, arrSort(so)))
-	e.hset(s, nm, e.name(s, sto(m, r, inner)), HWrite{Ref: r, Val: inner, Whole: true})
-	return SliceV{r, sv.Off, sv.Len, sv.Cap, sv.Elem}
-}
-
-func (e *Engine) learnAll(s *State, v Term) {
-	// conjunctions were merged by evalPure; learn from individual pc entries instead
-	for _, p := range s.pc {
-		e.learn(s, p)
-	}
-}
-
-func (e *Engine) discharge(out string, tmo int) {
-	sort.SliceStable(e.obs, func(i, j int) bool { return e.obs[i].Name < e.obs[j].Name })
-	var wg sync.WaitGroup
-	sem := make(chan struct{}, 14)
+func runCheck(id, only string, noEv bool) int {
 	t0 := time.Now()
-	for i, o := range e.obs {
-		if o.Triv {
-			continue
+	props, err := loadProps()
+	if err != nil {
+		return die(2, id, "cannot read props.json: %v", err)
+	}
+	cfg := props[id]
+	if cfg == nil {
+		return die(2, id, "unknown property")
+	}
+	// 1. contract files of the packages that take part
+	var dirs []*Directive
+	var pats []string
+	var contractFiles []string
+	for _, p := range cfg.Packages {
+		ds, files, err := readDirectives(filepath.Join(repoDir, p))
+		if err != nil {
+			return die(2, id, "%v", err)
 		}
-		wg.Add(1)
-		go func(i int, o *Oblig) {
-			defer wg.Done()
-			sem <- struct{}{}
-			defer func() { <-sem }()
-			fn := filepath.Join(out, fmt.Sprintf("ob%04d.smt2", i))
-			os.WriteFile(fn, []byte(o.Script), 0644)
-			type res struct {
-				s, r string
-				ms   int64
+		if len(files) == 0 {
+			return die(2, id, "no contract file (zz_*_verif.go) in %s", p)
+		}
+		dirs = append(dirs, ds...)
+		contractFiles = append(contractFiles, files...)
+		pats = append(pats, "./"+p)
+	}
+	pats = append(pats, "encoding/binary", "math/bits")
+	// 2. load the real code from the current working tree, with the verif tag
+	pcfg := &packages.Config{Mode: loadMode, Dir: repoDir, BuildFlags: []string{"-tags=verif"}, Env: append(os.Environ(), "GOFLAGS=-mod=mod", "GOPROXY=off")}
+	pkgs, err := packages.Load(pcfg, pats...)
+	if err != nil {
+		return die(2, id, "packages.Load: %v", err)
+	}
+	var perr []string
+	packages.Visit(pkgs, nil, func(p *packages.Package) {
+		for _, e := range p.Errors {
+			perr = append(perr, e.Error())
+		}
+	})
+	if len(perr) > 0 {
+		if len(perr) > 5 {
+			perr = perr[:5]
+		}
+		return die(2, id, "the tree (or a contract clause) does not type-check: %s", strings.Join(perr, "; "))
+	}
+	prog, spkgs := ssautil.Packages(pkgs, ssa.NaiveForm|ssa.InstantiateGenerics)
+	for _, p := range spkgs {
+		if p != nil {
+			p.Build()
+		}
+	}
+	tLoad := time.Since(t0)
+	e := newEngine(prog, spkgs)
+	all := allFuncs(prog, spkgs)
+	e.all = all
+	pkgPathOf := map[string]string{}
+	for i, p := range pkgs {
+		if spkgs[i] != nil && len(p.GoFiles) > 0 {
+			pkgPathOf[filepath.Dir(p.GoFiles[0])] = spkgs[i].Pkg.Path()
+		}
+	}
+	var targets []*Target
+	for _, d := range dirs {
+		pp := pkgPathOf[d.PkgDir]
+		switch d.Kind {
+		case "loop":
+			fn := resolveFn(all, pp, d.Fn)
+			if fn == nil {
+				return die(2, id, "%s:%d: function %s not found (renamed or removed?)", d.File, d.Line, d.Fn)
 			}
-			ch := make(chan res, 3)
-			for _, sv := range [][]string{{"z3-new", "-T:" + fmt.Sprint(tmo), fn}, {"z3", "-T:" + fmt.Sprint(tmo), fn}, {"cvc5", "--tlimit=" + fmt.Sprint(tmo*1000), fn}} {
-				go func(sv []string) {
-					st := time.Now()
-					b, _ := exec.Command(sv[0], sv[1:]...).CombinedOutput()
-					l := strings.SplitN(strings.TrimSpace(string(b)), "\n", 2)[0]
-					ch <- res{sv[0], l, time.Since(st).Milliseconds()}
-				}(sv)
+			if len(d.Args) < 3 {
+				return die(2, id, "%s:%d: malformed loop directive", d.File, d.Line)
 			}
-			var last res
-			for k := 0; k < 3; k++ {
-				r := <-ch
-				last = r
-				if r.r == "unsat" || r.r == "sat" {
-					break
+			var ord int
+			fmt.Sscanf(d.Args[0], "%d", &ord)
+			a := &LoopAnn{}
+			switch d.Args[1] {
+			case "unroll":
+				fmt.Sscanf(d.Args[2], "%d", &a.Unroll)
+			case "inv":
+				a.Invs = strings.Split(d.Args[2], ",")
+			default:
+				return die(2, id, "%s:%d: malformed loop directive", d.File, d.Line)
+			}
+			for _, x := range d.Args[3:] {
+				if strings.HasPrefix(x, "decreases=") {
+					a.Decr = x[len("decreases="):]
 				}
 			}
-			o.Result, o.Solver, o.Ms = last.r, last.s, last.ms
-		}(i, o)
-	}
-	wg.Wait()
-	triv, ok, bad := 0, 0, 0
-	by := map[string]int{}
-	for _, o := range e.obs {
-		switch {
-		case o.Triv:
-			triv++
-		case o.Result == "unsat":
-			ok++
-			by[o.Solver]++
-		default:
-			bad++
-			fmt.Printf("FAILED %-90s %s (%s, %d ms)\n", o.Name, o.Result, o.Solver, o.Ms)
+			if e.loops[fn.String()] == nil {
+				e.loops[fn.String()] = map[int]*LoopAnn{}
+			}
+			e.loops[fn.String()][ord] = a
+		case "opaque":
+			fn := resolveFn(all, pp, d.Fn)
+			if fn == nil {
+				return die(2, id, "%s:%d: function %s not found", d.File, d.Line, d.Fn)
+			}
+			e.opaque[fn.String()] = true
+		case "verify", "lemma", "bounded":
+			if !hasProp(d, id) {
+				continue
+			}
+			if only != "" && !strings.Contains(d.Fn, only) {
+				continue
+			}
+			if t := argVal(d, "tier"); t == "thorough" && tier != "thorough" {
+				continue
+			}
+			fn := resolveFn(all, pp, d.Fn)
+			if fn == nil {
+				return die(2, id, "%s:%d: function under contract %s not found (renamed or removed?)", d.File, d.Line, d.Fn)
+			}
+			targets = append(targets, &Target{D: d, Fn: fn, Short: shortName(fn.String())})
 		}
 	}
-	fmt.Printf("feasibility checks: %d\n", e.fchecks)
-	fmt.Printf("obligations: %d trivial(by folding) + %d discharged %v + %d failed; paths=%d; solver wall %v\n", triv, ok, by, bad, e.paths, time.Since(t0))
+	if len(targets) == 0 {
+		return die(2, id, "no function under contract for this property")
+	}
+	// 3. generate verification conditions
+	tGen0 := time.Now()
+	for _, t := range targets {
+		e.verify(t)
+	}
+	tGen := time.Since(tGen0)
+	if len(e.errs) > 0 {
+		return die(2, id, "%s", strings.Join(e.errs, "; "))
+	}
+	// 4. discharge
+	tmo := 20
+	if tier == "thorough" {
+		tmo = 90
+	}
+	tSolve0 := time.Now()
+	e.discharge(tmo)
+	tSolve := time.Since(tSolve0)
+	// 5. report
+	rep := e.report(id, cfg, targets, contractFiles)
+	rep.LoadS, rep.GenS, rep.SolveS = tLoad.Seconds(), tGen.Seconds(), tSolve.Seconds()
+	rep.WallS = time.Since(t0).Seconds()
+	code := rep.finish(id, cfg, only == "" && !noEv)
+	return code
+}
+
+func argVal(d *Directive, key string) string {
+	for _, a := range d.Args {
+		if strings.HasPrefix(a, key+"=") {
+			return a[len(key)+1:]
+		}
+	}
+	return ""
+}
+
+func sortedKeys(m map[string]bool) []string {
+	var r []string
+	for k := range m {
+		r = append(r, k)
+	}
+	sort.Strings(r)
+	return r
 }
